@@ -1,166 +1,6 @@
 package bgp
 
-import (
-	"bufio"
-	"encoding/json"
-	"flag"
-	"fmt"
-	"os"
-	"testing"
+import "testing"
 
-	"verif.local/simrt"
-)
-
-var (
-	flagProp   = flag.String("prop", "", "property id")
-	flagSeed   = flag.Uint64("seed", 1, "base seed")
-	flagFrom   = flag.Int("from", 0, "first run index")
-	flagRuns   = flag.Int("runs", 10, "number of runs")
-	flagOut    = flag.String("out", "", "output file (JSON lines)")
-	flagReplay = flag.String("replay", "", "replay a plan file")
-	flagTrace  = flag.Bool("trace", false, "keep canonical trace")
-	flagDump   = flag.Bool("dumpplan", false, "print the generated plans")
-	flagSamplePlans = flag.Int("sampleplans", 0, "include the plan of the first k runs in the output")
-	flagPlanOnly = flag.Bool("planonly", false, "emit the generated plans without running them")
-	flagShrink = flag.String("shrink", "", "with -replay: minimise the plan for this assertion id")
-	flagBudget = flag.Int("budget", 400, "candidate executions allowed while shrinking")
-)
-
-// RunSeed derives the seed of run i of a batch.
-func RunSeed(base uint64, i int) uint64 {
-	x := base*0x9e3779b97f4a7c15 + uint64(i)*0xbf58476d1ce4e5b9 + 0x94d049bb133111eb
-	x ^= x >> 31
-	x *= 0xd6e8feb86659fd93
-	x ^= x >> 32
-	return x | 1
-}
-
-type outLine struct {
-	Kind   string     `json:"kind"` // start | result
-	Index  int        `json:"index"`
-	Seed   uint64     `json:"seed"`
-	Result *RunResult `json:"result,omitempty"`
-	Plan   *Plan      `json:"plan,omitempty"`
-}
-
-// TestProp runs a batch of simulated runs for one property (driven by vcheck).
-func TestProp(t *testing.T) {
-	if *flagProp == "" && *flagReplay == "" {
-		t.Skip("no -prop")
-	}
-	var out *bufio.Writer
-	if *flagOut != "" {
-		f, err := os.OpenFile(*flagOut, os.O_CREATE|os.O_WRONLY|os.O_APPEND, 0o644)
-		if err != nil {
-			t.Fatal(err)
-		}
-		defer f.Close()
-		out = bufio.NewWriter(f)
-		defer out.Flush()
-	}
-	emit := func(l outLine) {
-		b, _ := json.Marshal(l)
-		if out != nil {
-			out.Write(b)
-			out.WriteByte('\n')
-			out.Flush()
-		} else if l.Kind == "result" {
-			r := l.Result
-			fmt.Printf("run %d seed %d: violations=%d trace=%s events=%d sim=%.1fs wall=%dms probes=%v faults=%v\n", l.Index, l.Seed, len(r.Violations), r.TraceHash, r.Stats.Events, float64(r.SimTimeNS)/1e9, r.WallUS/1000, r.Probes, r.Faults)
-			for _, v := range r.Violations {
-				fmt.Printf("   VIOL %s/%s step %d: %s\n", v.Prop, v.Assertion, v.Step, v.Detail)
-			}
-			if r.Panic != "" {
-				fmt.Printf("   PANIC %s\n", r.Panic)
-			}
-		}
-	}
-	if *flagReplay != "" {
-		b, err := os.ReadFile(*flagReplay)
-		if err != nil {
-			t.Fatal(err)
-		}
-		var rf ReplayFile
-		if err := json.Unmarshal(b, &rf); err != nil {
-			t.Fatal(err)
-		}
-		def, ok := lookupProp(rf.Plan.Prop)
-		if !ok {
-			t.Fatalf("unknown property %q", rf.Plan.Prop)
-		}
-		if *flagShrink != "" {
-			small, n := ShrinkPlan(t, def, rf.Plan, *flagShrink, *flagBudget)
-			res := runOne(t, def, clonePlan(small), true)
-			emit(outLine{Kind: "shrunk", Seed: rf.Plan.Seed, Result: res, Plan: small, Index: n})
-			return
-		}
-		res := runOne(t, def, rf.Plan, true)
-		emit(outLine{Kind: "result", Seed: rf.Plan.Seed, Result: res, Plan: rf.Plan})
-		return
-	}
-	def, ok := lookupProp(*flagProp)
-	if !ok {
-		t.Fatalf("unknown property %q", *flagProp)
-	}
-	for i := *flagFrom; i < *flagFrom+*flagRuns; i++ {
-		seed := RunSeed(*flagSeed, i)
-		plan := def.Gen(seed)
-		if *flagDump {
-			fmt.Println(string(plan.JSON()))
-		}
-		if *flagPlanOnly {
-			emit(outLine{Kind: "plan", Index: i, Seed: seed, Plan: plan})
-			continue
-		}
-		emit(outLine{Kind: "start", Index: i, Seed: seed})
-		res := runOne(t, def, plan, *flagTrace)
-		l := outLine{Kind: "result", Index: i, Seed: seed, Result: res}
-		if len(res.Violations) > 0 || res.Panic != "" || i-*flagFrom < *flagSamplePlans {
-			l.Plan = plan
-		}
-		emit(l)
-	}
-}
-
-// ReplayFile is the on-disk format of a reported violation.
-type ReplayFile struct {
-	Property  string      `json:"property"`
-	Assertion string      `json:"assertion"`
-	Seed      uint64      `json:"seed"`
-	Detail    string      `json:"detail"`
-	Minimised bool        `json:"minimised"`
-	Plan      *Plan       `json:"plan"`
-	Trace     []string    `json:"trace,omitempty"`
-	ReplayExact bool      `json:"replay_exact"`
-}
-
-func lookupProp(id string) (propDef, bool) {
-	d, ok := bgpProps[id]
-	return d, ok
-}
-
-func runOne(t *testing.T, def propDef, plan *Plan, trace bool) *RunResult {
-	res := RunPlan(t, plan, RunOpts{KeepTrace: trace, Oracles: def.Oracles, Setup: def.Setup})
-	if def.Twin != nil && res.Panic == "" {
-		def.Twin(t, plan, res)
-	}
-	if plan.Prop == "C26" {
-		if !simrt.RaceMode {
-			res.Violations = append(res.Violations, Violation{Prop: "HARNESS", Assertion: "not_a_race_build", Detail: "C26 plans are judged by the race detector and must run on the -race build of the engine"})
-		}
-		res.Violations = append(res.Violations, raceViolations("C26")...)
-		res.Nontrivial = res.Probes["concurrent_step"] > 0
-	}
-	// keep only violations of the property under test (plus harness/wire ones it owns)
-	var keep []Violation
-	for _, v := range res.Violations {
-		if v.Prop == plan.Prop || v.Prop == "HARNESS" || (v.Prop == "WIRE" && wireOwners[plan.Prop]) {
-			keep = append(keep, v)
-		}
-	}
-	res.Violations = keep
-	return res
-}
-
-// properties that own the generic wire assertions (undecodable / oversize DUT messages)
-var wireOwners = map[string]bool{"C10": true, "C22": true, "C31": true, "C32": true, "C33": true}
+// TestProp is the entry point vcheck runs (see RunMain).
+func TestProp(t *testing.T) { RunMain(t) }
